@@ -565,12 +565,7 @@ def _pots(chk, ctx) -> None:
     rets = [p.outcome[1] for p in ctx.paths(am) if p.returned] if am else []
     chk.ob('C01.pots', 'Pot.amount', rets == [T.spec('self.raked_amount + self.unraked_amount')], am.loc if am else pot.loc,
            'amount of a pot = raked + unraked part', got=[T.show(r) for r in rets])
-    tp = ctx.sfi('total_pot_amount')
-    want = T.spec('sum(self.bets) + p.amount', {'p': ('elem', ('self', 'pots'))})
-    rets = {T.key(unversion(p.outcome[1])): unversion(p.outcome[1]) for p in ctx.paths(tp) if p.returned}
-    ok = T.key(want) in rets and all(r in (want, T.spec('sum(self.bets)')) for r in rets.values())
-    chk.ob('C01.pots', 'State.total_pot_amount', ok, tp.loc, 'total pot = all bets in front of the players + the amount of every pot',
-           got=[T.show(r) for r in rets.values()], want=T.show(want))
+    total_pot(chk, ctx)
     # negative amounts are rejected by Pot
     pi = pot.methods.get('__post_init__')
     guards = set()
@@ -588,6 +583,15 @@ def _pots(chk, ctx) -> None:
     w_sub = sorted(n for n, s in ctx.eff.write_sites.items() if any(r == '_sub_pots' for r, _ in s))
     chk.ob('C01.owner', 'State._sub_pots:writers', w_sub == ['_begin_chips_pushing', 'push_chips'], ctx.state.loc,
            'the queue of sub-pots is filled when pushing begins and drained by push_chips', got=w_sub)
+
+
+def total_pot(chk, ctx, rule='C01.pots') -> None:
+    tp = ctx.sfi('total_pot_amount')
+    want = T.spec('sum(self.bets) + p.amount', {'p': ('elem', ('self', 'pots'))})
+    rets = {T.key(unversion(p.outcome[1])): unversion(p.outcome[1]) for p in ctx.paths(tp) if p.returned}
+    ok = T.key(want) in rets and all(r in (want, T.spec('sum(self.bets)')) for r in rets.values())
+    chk.ob(rule, 'State.total_pot_amount', ok, tp.loc, 'total pot = all bets in front of the players + the amount of every pot',
+           got=[T.show(r) for r in rets.values()], want=T.show(want))
 
 
 def _tests_of(fn, node):
